@@ -436,6 +436,24 @@ def add_platform_files(rng, pk, host_os, host_arch):
     return pk
 
 
+def add_tag_files(rng, pk, active, host_os):
+    """further targets of the package in files constrained on build TAGS (`//go:build t`, `!t`, `u`,
+    `t && u`, `t || <other os>`, `t && <host os>`); active = the tags GOFLAGS=-tags=... selects in
+    the environment the project is run in: a function in a file that is not selected is no target"""
+    fos = FOREIGN.get(host_os, "plan9")
+    kinds = [("tag_t", "t", "t" in active), ("tag_not_t", "!t", "t" not in active), ("tag_u", "u", "u" in active),
+             ("tag_t_and_u", "t && u", {"t", "u"} <= set(active)), ("tag_t_or_other_os", "t || " + fos, "t" in active),
+             ("tag_t_and_host_os", "t && " + host_os, "t" in active), ("tag_not_u", "!u", "u" not in active)]
+    used = {f["name"] for f in pk["funcs"]}
+    free = [n for n in FUNC_NAMES if n not in used]
+    rng.shuffle(free)
+    chosen = kinds[:2] + rng.sample(kinds[2:], rng.choice([1, 2, 3]))
+    for (part, build, selected), nm in zip(chosen, free):
+        pk["funcs"].append({"name": nm, "sig": rng.choice(SIGS), "file": part, "build": build, "foreign": not selected})
+    pk["shape"] = pk.get("shape", "?") + "+tags"
+    return pk
+
+
 def add_fs_shapes(rng, pk, shapes):
     """further targets of the package in source files of the given file-system shapes (one function
     per file), a directory with a .go name, and a file the go tool ignores by its name"""
